@@ -3,6 +3,7 @@ package main
 import (
 	"fmt"
 	"path/filepath"
+	"strings"
 
 	"verifharness/internal/goast"
 )
@@ -28,7 +29,33 @@ func extractCache(repo string) (map[string]string, error) {
 	if err != nil {
 		return nil, err
 	}
+	// lock discipline: the sequential model treats every public operation as atomic, which holds for
+	// concurrent callers only if each one takes c.mux first and keeps it until it returns
+	cg, err := goast.Parse(filepath.Join(dir, "cache.go"))
+	if err != nil {
+		return nil, err
+	}
+	var locks []string
+	for _, m := range []string{"Close", "Len", "Capacity", "Set", "Get", "Delete"} {
+		fd, err := cg.Func("cache." + m)
+		if err != nil {
+			return nil, err
+		}
+		sk := goast.Skeleton(fd)
+		first := ""
+		if len(sk) >= 2 {
+			first = sk[0] + "," + sk[1]
+		}
+		var all []string
+		for _, t := range sk {
+			if strings.Contains(t, ".mux.") {
+				all = append(all, t)
+			}
+		}
+		locks = append(locks, m+": first="+first+"; all="+strings.Join(all, ","))
+	}
 	src := "namespace AsherahVerif.Generated.CacheConst\n" +
+		"def lockDiscipline : List String := " + goast.LeanStringList(locks) + "\n" +
 		fmt.Sprintf("def protectedRatio : Float := %s\n", pr) +
 		fmt.Sprintf("def admissionRatio : Float := %s\n", ar) +
 		"end AsherahVerif.Generated.CacheConst\n"
